@@ -127,3 +127,11 @@ Fixpoint fail_count (K : list N) (cfg : ccfg) (st : cstate) (ops : list cop) : n
     let (st1, res) := cstep cfg st op in
     ((if is_auth_for K op && negb (is_ok res) then 1 else 0) + fail_count K cfg st1 r)%nat
   end.
+
+(* Authenticate with the proposed repair (findings/C12_code_expiry.diff): stale rows are
+   expired before the lookup, as GenSecret does *)
+Definition cstep_fixed (cfg : ccfg) (st : cstate) (op : cop) : cstate * cres :=
+  match op with
+  | CAuth _ => cstep cfg (mkCS (cexpire (cs_now st - cc_lifetime cfg) (cs_store st)) (cs_now st)) op
+  | _ => cstep cfg st op
+  end.
